@@ -83,7 +83,9 @@ type reqKind struct {
 	Vacuum   bool
 }
 
-func (k reqKind) String() string { return fmt.Sprintf("%s gz=%v vacuum=%v", k.Format, k.Compress, k.Vacuum) }
+func (k reqKind) String() string {
+	return fmt.Sprintf("%s gz=%v vacuum=%v", k.Format, k.Compress, k.Vacuum)
+}
 
 func (k reqKind) req() *proto.BackupRequest {
 	br := &proto.BackupRequest{Leader: true, Compress: k.Compress, Vacuum: k.Vacuum}
